@@ -364,6 +364,11 @@ func (c18) Run(s *scn.Scn, x *sim.Exec) {
 				}
 				continue
 			}
+			if got.err != seq.err && strings.Contains(got.err, "size mismatch") && denormLazy && nc > 1 {
+				// the same Size-pass / encode-pass window as in the relaxed Marshal family (known finding)
+				x.Fail("I2:size-mismatch/denormalised-lazy/concurrent", "%s failed under concurrency (%s) but succeeds sequentially", where, got.err)
+				return
+			}
 			if got.err != seq.err || got.digest != seq.digest {
 				x.Fail("I2:"+op.Op, "%s: result under concurrency (digest %x err %q) differs from the sequential result (digest %x err %q)", where, got.digest, got.err, seq.digest, seq.err)
 				return
